@@ -667,6 +667,13 @@ def builtin_call(self, st, name, args, kwargs, node=None):
         if isinstance(v, ListVal):
             return [(OK, st, ListVal([TupleVal([Val(z3.IntVal(i), INT), x]) for i, x in enumerate(v.items)]))]
         raise Unsupported("enumerate")
+    if name == "range" and len(a) == 1 and isinstance(a[0], Val) and a[0].ty == INT:
+        n = a[0].term
+        r = z3.Const(fresh_name("range"), SeqT(INT).sort())
+        k = z3.Int(fresh_name("rk"))
+        st.assume(z3.Length(r) == z3.If(n > 0, n, 0))
+        st.assume(z3.ForAll([k], z3.Implies(z3.And(k >= 0, k < z3.Length(r)), r[k] == k)))
+        return [(OK, st, Val(r, SeqT(INT)))]
     if name == "next":
         return self.do_next(st, a[0], a[1] if len(a) > 1 else None)
     if name == "iter":
